@@ -146,6 +146,8 @@ func (m *Message) CopyInto(to *Message) {
 	m.Body.CopyInto(&to.Body.FieldMap)
 	m.Trailer.CopyInto(&to.Trailer.FieldMap)
 
+	// The destination is no longer the message it may once have been parsed from.
+	to.rawMessage = nil
 	to.ReceiveTime = m.ReceiveTime
 	to.bodyBytes = make([]byte, len(m.bodyBytes))
 	copy(to.bodyBytes, m.bodyBytes)
